@@ -547,7 +547,12 @@ impl Run {
                 let _ = std::fs::write(&path, serde_json::to_string_pretty(&d).unwrap());
                 println!("  violation: {}", v.signature);
                 let short = serde_json::to_string(&v.detail).unwrap_or_default();
-                println!("    {}", &short[..short.len().min(1500)]);
+                // cut on a character boundary (details may quote multi-byte inputs)
+                let mut cut = short.len().min(1500);
+                while !short.is_char_boundary(cut) {
+                    cut -= 1;
+                }
+                println!("    {}", &short[..cut]);
                 println!("VIOLATION property={} replay={}", self.prop, path.display());
             }
             code = 1;
